@@ -2,6 +2,7 @@ package c18
 
 import (
 	"fmt"
+	"regexp"
 	"strings"
 
 	"deps.dev/util/resolve"
@@ -47,11 +48,19 @@ type diffResult struct {
 
 // differential resolves root through the API-backed client and through the
 // in-memory client loaded with the model's encoding, and compares.
-func differential(api resolve.Client, local resolve.Client, budget int64, root resolve.VersionKey) diffResult {
+func differential(reg *Registry, api resolve.Client, local resolve.Client, budget int64, root resolve.VersionKey) diffResult {
 	a := resolveOnce(api, budget, root)
 	l := resolveOnce(local, budget, root)
 	d := diffResult{api: a, local: l}
 	switch {
+	case a.panicked == "" && a.isErr && !a.exhausted && (!l.isErr || l.exhausted) && missingPackage(reg, a.enc) != "":
+		// One narrow shape of a one-sided failure: a requirement on a package the
+		// service does not know. The in-memory client answers "no version
+		// matches" (AddVersion gives every required package an entry) and the
+		// resolver records the unmet requirement on the node.
+		d.class = "diff:missing-package"
+		d.what = fmt.Sprintf("a requirement names the package %q, which the registry does not have: through the API-backed client Resolve fails (%s); through the in-memory client it %s", missingPackage(reg, a.enc), a.enc,
+			pick(l.exhausted, "goes on", "returns a graph that records the unmet requirement:\n"+l.enc))
 	case a.panicked != "" || l.panicked != "":
 		if a.panicked != "" && l.panicked == "" {
 			d.class, d.what = "diff:panic", "the resolution through the API-backed client panics ("+a.panicked+"), the one through the in-memory client does not"
@@ -76,6 +85,18 @@ func differential(api resolve.Client, local resolve.Client, budget int64, root r
 		d.what = "the two resolutions differ.\nAPI-backed client:\n" + a.enc + "\nin-memory client:\n" + l.enc
 	}
 	return d
+}
+
+var missingRE = regexp.MustCompile(`package NPM:(.+): not found$`)
+
+// missingPackage extracts the package a failed resolution could not find, if
+// the registry indeed lacks it.
+func missingPackage(reg *Registry, enc string) string {
+	m := missingRE.FindStringSubmatch(enc)
+	if m == nil || reg.pkg(m[1]) != nil {
+		return ""
+	}
+	return m[1]
 }
 
 func pick(b bool, x, y string) string {
